@@ -206,3 +206,19 @@ check("C12",
       "Partial by nature: absence of memory errors and undefined behaviour in the C text is not decided by the proof, only sampled; the configuration parser has "
       "no model here (its exit class, stdout, stderr and sanitizer behaviour are judged). Trusted: Lean kernel; ASan/UBSan; harness.",
       "DESIGN.md#c12")
+
+check("C08",
+      "Lean 4 proof of the rejection and value rules over a table-driven model of the configuration reader whose grammar, token and documentation tables are regenerated from the source on every run + real robsd-config (ASan) on grammar-derived configurations and single-edit corruptions, compared with the model byte for byte",
+      "Proof (Conf.parseKeyword/parse/find over Gen/Grammar): an unknown keyword, a keyword of another mode, a computed variable, a second occurrence of a "
+      "non-repeatable keyword, a missing required keyword, a value of the wrong type, a lexer diagnostic and an out-of-range timeout each reject the file "
+      "(unknown_keyword_rejected, foreign_mode_keyword_rejected, computed_variables_not_settable, duplicate_rejected, missing_required_rejected, wrong_type_rejected, "
+      "lexer_error_rejected, timeout_value); booleans are 1/0, lists join with single spaces, timeouts are seconds (boolean_keyword, list_value, timeout_value); the "
+      "k-th ${rdomain} reference is 11 + k mod 245, successive ones differ (rdomain_cycle, rdomain_successive_distinct, find_rdomain); the accepted keywords differ "
+      "from the documented ones exactly by skip (robsd-regress) and robsddir (canvas) (undocumented_keywords, documented_are_accepted). Correspondence: every "
+      "generated configuration (five modes, every settable keyword, shuffled order, comments/whitespace, 1-17 regress entries with all options, 1-17 steps, lock "
+      "file or not) and every single-edit corruption goes through the real robsd-config with a template asking for all variables; exit status and stdout are "
+      "compared with Conf.configCmd on the same bytes and with the generator's own expectation.",
+      "Partial: `complete` (every text derivable from the documented grammar is accepted with every variable at its configured value) is not proved as a theorem; "
+      "it is what the generator + correspondence sample. glob(3), getpwnam(3), stat(2), MACHINE/MACHINE_ARCH and the egress addresses are parameters of the model; "
+      "-v var=val is not modelled. Known findings: skip / robsddir accepted but undocumented. Trusted: Lean kernel; translator; harness; ASan.",
+      "DESIGN.md#c08")
